@@ -1,6 +1,6 @@
 (* C03 property theorems. This file contains only statements closed by
    [exact lemma] and Print Assumptions. *)
-From V Require Import Common.Base C03.Num C03.SpecOps C03.NumProofs C03.Tree C03.Fold C03.PowProofs C03.MiniJS C03.Worlds C03.TreeProofs C03.TreeProofs2 C03.TreeProofs3 C03.TreeProofs4 C03.TreeProofs5 C03.TreeProofs6 C03.TreeProofs7 C03.TreeProofs8 C03.TreeProofs9 C03.TreeProofs10 C03.TreeProofs11 C03.Refuted.
+From V Require Import Common.Base C03.Num C03.SpecOps C03.NumProofs C03.Tree C03.Fold C03.PowProofs C03.MiniJS C03.Worlds C03.TreeProofs C03.TreeProofs2 C03.TreeProofs3 C03.TreeProofs4 C03.TreeProofs5 C03.TreeProofs6 C03.TreeProofs7 C03.TreeProofs8 C03.TreeProofs9 C03.TreeProofs10 C03.TreeProofs11 C03.TreeProofs12 C03.Refuted.
 
 (* js_ast.ToInt32 computes ECMA-262 ToInt32 for every float64 (finite dyadic of
    any magnitude, NaN, infinities), whatever Go's implementation-defined
@@ -153,15 +153,15 @@ Print Assumptions eval_never_short.
    the model: the call evaluates without evaluating them when the chain
    short-circuits, and the model is partial.  The statement with optional-chain
    insertion (noOptChain = false; finding J, repaired by 01a3711) is not proved.
+   The model is total (no fuel hypothesis: see simplify_unused_total).
    Full statement: forall e, flags_ok W e -> ... same_effects (eval e) (eval_unused (simplify_unused ub noOC e)) *)
 Theorem simplify_unused_sound_partial :
   forall (W : world), world_ok W ->
     forall e tr res,
     flags_ok W e -> no_bad W e ->
-    simplify_unused (w_unbound W) true e <> UFuel ->
     eval W tr e = Some res ->
     same_effects (Some res) (eval_unused W tr (simplify_unused (w_unbound W) true e)).
-Proof. exact simplify_unused_sound_partial_all. Qed.
+Proof. exact simplify_unused_sound_nofuel_all. Qed.
 Print Assumptions simplify_unused_sound_partial.
 
 (* CheckEqualityIfNoSideEffects on two literals (also inlined enum constants)
@@ -268,3 +268,15 @@ Theorem mangle_if_total :
     exists e', mangle_if unbound noNullish noOptChain test yes no = Some e'.
 Proof. exact mangle_if_total_all. Qed.
 Print Assumptions mangle_if_total.
+
+(* the fuel of the SimplifyUnusedExpr model suffices for every input (its recursion
+   goes through SimplifyBooleanExpr, which never grows an expression) *)
+Theorem simplify_boolean_never_grows :
+  forall unbound e, (esize (simplify_boolean unbound e) <= esize e)%nat.
+Proof. exact sb_size_le. Qed.
+Print Assumptions simplify_boolean_never_grows.
+
+Theorem simplify_unused_total :
+  forall unbound noOptChain e, simplify_unused unbound noOptChain e <> UFuel.
+Proof. exact simplify_unused_total_all. Qed.
+Print Assumptions simplify_unused_total.
